@@ -99,8 +99,13 @@ func verifHarness_C07_forged(n int) {
 	f := V2Frame{IncompatibilityFlag: 1, CompatibilityFlag: compat, SequenceNumber: seq, SystemID: sys, ComponentID: comp,
 		Message: &message.MessageRaw{ID: id, Payload: payload}, Checksum: ck, SignatureLinkID: link, SignatureTimestamp: fts}
 	good := f.GenerateSignature(key)
-	forged := verifNondetBytes(6)
-	verifAssume(verifNot(verifEqBytes(forged, good[:])))
+	// any six bytes other than the right signature, as a non-zero difference (replays against the real SHA-256)
+	delta := verifNondetBytes(6)
+	verifAssume(verifNot(verifEqBytes(delta, make([]byte, 6))))
+	forged := make([]byte, 6)
+	for i := range forged {
+		forged[i] = good[i] ^ delta[i]
+	}
 	wire := verifSpecV2(1, compat, seq, sys, comp, id, payload, ck, true, link, fts, forged)
 	// followed by a correctly signed frame
 	ts := verifNondetU64()
